@@ -53,6 +53,11 @@ type JobSpec struct {
 	// context.Canceled / context.DeadlineExceeded (a task that bounds its own
 	// work with a context of its own) although the scenario's context is live.
 	ErrKind int `json:"err_kind,omitempty"`
+	// ShareDeps: the Dependencies slice handed to Enqueue is a window
+	// (deps[1:]) of the very slice the previous job of the same enqueuer was
+	// submitted with - callers build such lists from one backing array. The
+	// scheduler must treat its argument as read-only.
+	ShareDeps bool `json:"share_deps,omitempty"`
 	// DeadCtx: the job is submitted with a context of its own that is already
 	// done (1: cancelled, 2: its deadline has passed) while the other jobs'
 	// context is live. It must not be started; its failure is that context's error.
@@ -306,6 +311,16 @@ func genMix(r *vc.Rand, index int) *Scenario {
 		}
 		if r.Chance(1, 25) {
 			j.OtherCtx = true
+		}
+		if i > 0 && r.Chance(1, 8) {
+			// a list with a repetition for the previous job ... and a window of
+			// it for this one
+			if pj := &sc.Jobs[i-1]; pj.Side == j.Side && len(pj.Deps) >= 1 && !pj.ShareDeps {
+				pj.Deps = append([]int{pj.Deps[0]}, pj.Deps...)
+				j.Deps = append([]int(nil), pj.Deps[1:]...)
+				j.ShareDeps = true
+				j.Pace, j.PaceArg = PaceNow, 0
+			}
 		}
 		sc.Jobs = append(sc.Jobs, j)
 	}
